@@ -20,13 +20,21 @@ theorem execOp_refInv (s : St) (op : Op) (hr : RefInv s) : RefInv (execOp s op).
   | getKey k => simp only [execOp]; split <;> exact hr
   | getKeys => exact hr
   | getKeysWithData => exact hr
-  | resetRoutine k => exact refInv_of_refs (tstep_resetKey s k).refs hr
-  | restartRoutine k => exact refInv_of_refs (touch_restartKey s k).frame.refs hr
-  | resetAll =>
+  | resetRoutine k cs =>
+    simp only [execOp]
+    split
+    · exact refInv_of_refs (tstep_resetKey s k).refs hr
+    · exact hr
+  | restartRoutine k cs =>
+    simp only [execOp]
+    split
+    · exact refInv_of_refs (touch_restartKey s k).frame.refs hr
+    · exact hr
+  | resetAll cs =>
     simp only [execOp]
     rw [foldl_fst resetAllStep (fun s k => (resetKey s k).1) (fun _ _ => rfl)]
     exact refInv_of_refs (foldl_tstep _ tstep_resetKey _ _).refs hr
-  | restartAll =>
+  | restartAll cs =>
     simp only [execOp]
     rw [foldl_fst restartAllStep (fun s k => (restartKey s k).1) (fun _ _ => rfl)]
     exact refInv_of_refs (foldl_tstep _ (fun s k => (touch_restartKey s k).quiet.tstep) _ _).refs hr
@@ -93,7 +101,8 @@ theorem rinv_step (s s' : St) (e : Ev) (hI : RInv s) (h : step s e = some s') : 
     split at h
     · rename_i op hc
       simp at h; subst h
-      exact ⟨execOp_refInv s op hI.refs⟩
+      exact ⟨execOp_refInv (preOp s op) op (by
+        intro x hx; rw [(preOp_fields s op).2.1] at hx; exact hI.refs x hx)⟩
     · simp at h
   | ctor k d =>
     simp only [step] at h
@@ -178,6 +187,11 @@ theorem rinv_step (s s' : St) (e : Ev) (hI : RInv s) (h : step s e = some s') : 
     simp only [step] at h
     split at h
     · simp at h; subst h; exact rinv_of_refs hI rfl
+    · simp at h
+  | cancelroot =>
+    simp only [step] at h
+    split at h
+    · simp at h; subst h; exact rinv_of_refs hI (sameBut_cancelAll _).refs
     · simp at h
 
 theorem rinv_init : RInv ({} : St) := ⟨fun x hx => by simp at hx⟩
